@@ -429,6 +429,24 @@ theorem njobs_independent_any_two {α} (n : Nat) (task : Nat → α) (s1 s2 : Li
     runSchedule n task s1 = runSchedule n task s2 := by
   rw [njobs_independent n task s1 h1, njobs_independent n task s2 h2]
 
+/-! ### the tie to the functions the model transcribes -/
+
+/-- the functions the hand-written model transcribes have, in the current source, the control skeleton (tests, loop
+headers, kinds of statements and the names they bind) they had when the model was written and validated: no branch,
+loop, early exit or rebinding has been added that the model does not describe -/
+theorem modelled_functions_have_the_transcribed_shape :
+    MlVerif.Gen.C08.shapeFitTask =
+      "ind=;if(not numpy.any(ind)){return};Xi=;yi=;sw=;if(nb_classes is not None and len(set(yi)) != nb_classes){if(random_state is None){random_state=};addition=;call shuffle;found=;allcl=;res=;while(len(found) < len(allcl)){for(ki in addition){if(y[ki] not in found){call append;call add}}};ind=;for(ki in res){ind[]=};Xi=;yi=;sw=};return" ∧
+    MlVerif.Gen.C08.shapePredictTask =
+      "ind=;if(not numpy.any(ind)){return};return" ∧
+    MlVerif.Gen.C08.shapeTransformBins =
+      "binner=;if(hasattr(binner, 'tree_')){dec_path=;association=;association[]=;for(j in self.leaves_){ind=;ind=;if(not numpy.any(ind)){continue};association[]=}}else{if(hasattr(binner, 'transform')){association=;association[]=;tr=;for((i,x) in enumerate(tr)){d=;association[]=}}else{raise}};return" ∧
+    MlVerif.Gen.C08.shapeMappingTrain =
+      "if(hasattr(binner, 'tree_')){tree=;leaves=;dec_path=;association=;association[]=;mapping=;ntree=;for(j in leaves){ind=;ind=;if(not numpy.any(ind)){continue};mapping[]=;association[]=;ntreeAdd=}}else{if(hasattr(binner, 'transform')){tr=;unique=;for(x in tr){d=;call add};leaves=;association=;association[]=;ntree=;mapping=;for((i,le) in enumerate(leaves)){mapping[]=};for((i,x) in enumerate(tr)){d=;association[]=}}else{raise}};return" ∧
+    MlVerif.Gen.C08.shapeApplyPredictMethod =
+      "assert;assert;if(isinstance(X, pandas.DataFrame)){X=};association=;indpred=;pred=;indall=;indall[]=;for((ind,p) in indpred){if(ind is None){continue};pred[]=;indall=};indall=;Xmissed=;if(Xmissed.shape[0] > 0){meth=;missed=;pred[]=};return" :=
+  ⟨rfl, rfl, rfl, rfl, rfl⟩
+
 /-! ### non-vacuity: concrete instances satisfying the hypotheses -/
 
 -- a depth-2 tree (nodes 0..6, leaves 2,3,5,6); leaf 5 holds no training row
